@@ -32,7 +32,13 @@ Unit(u, x, y) ==
     [] u = 21 -> <<Tok("pre", "-"), Tok("int", "2"), Tok("chain", "."), Tok("prop", "m")>>
     [] u = 22 -> <<Tok("pre", "!"), Tok("int", "2"), Tok("lb", "["), Tok("int", "0"), Tok("rb", "]")>>
     [] u = 23 -> <<Tok("pre", "-"), Tok("int", "2")>>
-NUnits == 23
+    \* properties named by operators, called without arguments: the operator that FOLLOWS must stay an infix operator of its own
+    [] u = 24 -> <<Id(x), Tok("chain", "."), Tok("prop", "+")>>
+    [] u = 25 -> <<Id(x), Tok("chain", "$"), Tok("prop", "-")>>
+    [] u = 26 -> <<Id(x), Tok("chain", "."), Tok("prop", "*")>>
+    [] u = 27 -> <<Id(x), Tok("chain", "@"), Tok("prop", "<")>>
+    [] u = 28 -> <<Id(x), Tok("chain", "."), Tok("prop", "/")>>
+NUnits == 28
 NConn == Len(InfixOps) + 5
 Conn(c) == IF c <= Len(InfixOps) THEN Inf(InfixOps[c])
            ELSE CASE c = Len(InfixOps) + 1 -> Tok("asg", ":=")
